@@ -47,6 +47,7 @@ PLAN = {
     "C02": (["default", "compact", "radix+format"], ["pow2", "format", "radix", "compact+radix+format", "nostd"]),
     "C03": (["default", "compact", "pow2", "radix", "compact+radix", "radix+format"], ["compact+radix+format", "nostd"]),
     "C05": (["pow2", "radix", "compact+radix", "radix+format"], ["compact+radix+format", "compact+pow2", "pow2+format"]),
+    "C10": (["default", "default:checked", "radix+format", "radix+format:checked", "compact+radix+format"], ["compact", "format", "compact+radix+format:checked", "radix", "pow2+format"]),
     "C11": (["default", "compact", "radix+format", "compact+radix+format"], ["format", "radix", "pow2+format"]),
     "C12": (["format", "radix+format", "compact+radix+format"], ["pow2+format", "compact+format"]),
     "C13": (["radix+format", "format", "compact+radix+format"], ["pow2+format", "compact+format"]),
@@ -167,6 +168,9 @@ def run_replay_file(path, strict=True):
         return "pass", r.stdout
     if r.returncode == 1:
         return "fail", r.stdout
+    if r.returncode < 0:
+        # the replayed call killed the process (guard-page fault, abort): the violation reproduces
+        return "fail", r.stdout + f"\nreplay process killed by signal {-r.returncode}\nVIOLATION property={v.get('property')} replay={path}\n"
     return "infra", r.stdout
 
 
@@ -200,7 +204,10 @@ def check(prop, tier):
             infra = True
             continue
         sys.stderr.write(r.stderr[-3000:])
-        if r.returncode != 0 or not os.path.exists(out):
+        if r.returncode == 3 and os.path.exists(out):
+            log(f"{prop} {spec}: harness reported an infrastructure problem (watchdog / worker failure)")
+            infra = True
+        elif r.returncode != 0 or not os.path.exists(out):
             log(f"{prop} {spec}: harness exited with {r.returncode}\n{r.stdout[-2000:]}")
             infra = True
             continue
